@@ -22,6 +22,21 @@ CLAIMED = {
    note="Trusted: Lean kernel; JEDEC MR decoders (Spec/JedecMR.lean); ast-based table translator; RPC and LPDDR5 MR contents not modelled (header equivalence only). Known findings: c17-wr-from-twtr, c17-ddr2-wr-const, c17-py-clamshell.",
    technique="Lean 4 proof by kernel decision over generated tables + exhaustive correspondence with init.py",
    design="§6 C17"),
+ "C02": dict(
+   text="Cycle-accurate Lean model of the whole controller core (N bank machines, two command choosers, steerer, timing gates, refresher) co-simulated signal-by-signal against LiteDRAMController over random configurations; Lean theorem bm_run_legal: in every reachable state of a bank machine, under the stated environment contract (refresher's precharge-all only in REFRESH, refresh withdrawn only after it), ACT is issued only on a precharged bank and RD/WR only on the open row the head request addresses, incl. auto-precharge and refresh, for every configuration; the whole-controller statement (specification monitor Dram.Mon never rejects) is evaluated on every implementation trace, not proved (dfi_stream_legal_full).",
+   note="Trusted: Lean kernel; Spec/Dram.lean (JEDEC command decode, bank automaton, strobe rules); co-simulation coverage as reported. Proved: bank-machine layer against its environment contract; composed controller: model-checked by simulation only (partial).",
+   technique="Lean 4 proof (inductive joint invariant bank machine / reference bank, lifted over all input histories) + cycle-exact co-simulation of the controller model + Lean specification monitor on implementation traces",
+   design="§6 C02"),
+ "C03": dict(
+   text="Lean theorems for every parameter value and unbounded time: tXXDController spacing (two gated strobes never closer than txxd cycles, from reset), tFAWController (any tFAW window holds at most four gated activates), bank machine tRCD and tRP delay chains (ghost counters), worst-phase conversion c*n-(n-1); composed with C16's margin theorem they give the datasheet distances. The composed statement (Dram.Mon with the timing table accepts every controller trace) is evaluated on every implementation trace; the controller model is co-simulated cycle-exactly.",
+   note="Trusted: Lean kernel; timing rules of Spec/Dram.lean; distances required of the controller are cycles*n-(n-1) DRAM clocks (C16 proves this covers the ns value). Composition over the multiplexer is partial (monitor + co-simulation).",
+   technique="Lean 4 proof (timer/shift-register invariants with ghost clocks) + co-simulation + Lean timing monitor on implementation DFI traces",
+   design="§6 C03"),
+ "C04": dict(
+   text="Lean theorems for every tREFI/tRP/tRFC/postponing: the refresh timer pulses exactly every tREFI cycles for ever, the postponer passes one request per `postponing` pulses, every REF of the executer is preceded by its precharge-all exactly tRP cycles earlier, deadline accounting; refresher model co-simulated cycle-exactly (stand-alone and inside the controller); on implementation traces the check verifies the k-th refresh deadline with the explicit grant bound D(cfg), PREA-before-REF, and ZQCS recurrence. The grant-latency bound itself is bounded liveness of the composed controller: stated (refresh_grant_bound_full), measured, not proved.",
+   note="Trusted: Lean kernel; D(cfg) formula; datasheet rate needs C16's refresh_interval_not_longer (proved) and the tREFI fix. Partial: grant latency bound.",
+   technique="Lean 4 proof (counter periodicity by induction, timeline invariant with ghost) + co-simulation + deadline monitor",
+   design="§6 C04"),
  "C06": dict(
    text="Lean theorems over the parametric address-map model for every geometry satisfying WF: left and right inverse (injective, onto), A10 never a column bit, row part, consecutive walk; model tied to the real crossbar routing and _AddressSlicer by exhaustive (small geometries) and dense evaluation in Migen's simulator.",
    note="Trusted: Lean kernel, Spec (Loc/addrOf/encodeCol in Props/C06.lean), correspondence harness; the steerer's rank/bank split is replicated in the harness and re-observed end-to-end by C01/C02 whole-core runs.",
